@@ -31,6 +31,10 @@ Definition show_keyed (l : list (event QcK * nat)) :=
   map (fun ek : event QcK * nat => (e_blk (fst ek), e_row (fst ek), e_col (fst ek), show (e_val (fst ek) : Qc), snd ek)) l.
 """
 
+# where the model says the access leaves its array -> the source line the interpreter's traceback must end in
+SITE_SOURCE = {"E_kernel": "kernels[w][i]", "W_radii_mask": "radii[mask_index] = 0.0", "W_radii_min": "min(radii)",
+               "D_win W_radii_col": "window_size_array[i, target_word]"}
+
 # ------------------------------------------------------------------ generators
 
 def dy(rng, nums, den):
@@ -296,7 +300,7 @@ def model_verdict(v):
     def flat(x):
         if isinstance(x, tuple):
             return " ".join(flat(y) for y in x if y != "ctor")
-        return str(x)
+        return str(x).split(".")[-1]
     return "oob", flat(site[1])
 
 
@@ -461,7 +465,7 @@ def finish(ctx, st):
             exprs.append(coq_expr(c, r["ok"][:len(c["freq"])] if r else [1] * len(c["freq"])))
         for (i, c), v in zip(late, C.coq_eval_sharded("c10idx2", HEADER, exprs, 150, 4, 600)):
             model[id(c)] = model_verdict(v)
-    n_cmp = n_verdict = 0
+    n_cmp = n_verdict = n_site = 0
     for i, c in enumerate(valid):
         ctx.count_case(c, nontrivial=nontrivial(c), kind=label(c))
         if "kernel" in c and "normalize" in c:
@@ -510,8 +514,16 @@ def finish(ctx, st):
                     m, ("raised " + r["err"]) if raised else "returned a value"),
                     {"stage": "idx-correspondence", "mode": m, "case": c, "model": [verdict, str(mval)[:200]], "result": r},
                     found_input=False)
+            elif m == "interpreted" and raised and SITE_SOURCE.get(mval, "\0") not in r.get("tb", ""):
+                ctx.report("malformed %s (%s): the model leaves its array at %s (source `%s`) but the interpreter's traceback ends "
+                           "elsewhere: %s" % (c["kind"], c["malformed"], mval, SITE_SOURCE.get(mval), r.get("tb", "")[-300:]),
+                           {"stage": "idx-correspondence", "mode": m, "case": c, "model": [verdict, str(mval)[:200]], "result": r},
+                           found_input=False)
+            elif raised:
+                n_site += m == "interpreted"
     ctx.coverage["correspondence"]["index_level"] = {
         "valid_cases": len(valid), "malformed_cases_checked_modes_only": len(bad),
-        "verdict_comparisons": n_verdict, "value_comparisons": n_cmp, "float_tolerance": TOL,
+        "verdict_comparisons": n_verdict, "value_comparisons": n_cmp,
+        "error_site_vs_traceback_line_comparisons": n_site, "float_tolerance": TOL,
         "models": ["K04_EM_idx.em_update_idx", "K02_Windows_idx.window_at_index_idx", "window_kernel_idx", "kernel_idx",
                    "fixed_window_radii_idx", "variable_window_radii_idx", "K03_Driver_idx.build_skip_grams_idx"]}
